@@ -80,6 +80,7 @@ func checkC10(c *Ctx) {
 		c10Creation(c, p, m)
 		c10Navigation(c, p, m)
 		freshChildren(c, p, m, "R10.4", nil)
+		optionsInOrder(c, p, "R10.3")
 	}
 	c.Floor["R10.1"] = 40
 	c.Floor["R10.2"] = 30
